@@ -117,7 +117,10 @@ class Ctx:
         workers = workers or self.cores
         specdir = specdir or self.specdir
         meta = self.path(f'meta_{module}_{cfg}{tag}_{int(time.time() * 1000) % 100000}')
-        jopts = ['-XX:+UseParallelGC', f'-Xmx{heap}', '-Xss512m']
+        # TLC's scratch directories (tlc-<n>) go into the work directory of this run, which is removed at the end
+        jtmp = self.path('jtmp')
+        os.makedirs(jtmp, exist_ok=True)
+        jopts = ['-XX:+UseParallelGC', f'-Xmx{heap}', '-Xss512m', f'-Djava.io.tmpdir={jtmp}']
         if deque:
             jopts.append('-Dtlc2.tool.queue.IStateQueue=StateDeque')
         cmd = ['timeout', str(timeout), 'java'] + jopts + ['-cp', TLA_CP, 'tlc2.TLC', '-workers', str(workers),
